@@ -17,7 +17,7 @@ def e2e_part(prop, tier, cov, violations, notes, build_is_violation=False):
     cov["run_s"] = round(e["run_s"], 1)
     cov["dumps_bound"] = e["dumps"]["dumps_bound"]
     cov["dumps_unbound"] = len(e["dumps"]["dumps_unbound"])
-    cov["traces_validated_against_impl"] = c["m_validated"]
+    cov["traces_validated_against_impl"] = cov.get("traces_validated_against_impl", 0) + c["m_validated"]
     for v in e["violations"]:
         violations.append(v)
     for nb in e["not_built"] + e["screened_out"]:
